@@ -1,5 +1,5 @@
 (* C01/ProofsB.v — I2: every node output names that node and position as its producer, and conversely.
-   Proved for the repaired model; the current code breaks it at SNodeOutputs (Node(outputs=[x, x])). *)
+   Proved for the repaired model; the current code breaks it at SNodeOutputsDup (Node(outputs=[x, x]); repaired by dff454e). *)
 From Coq Require Import ZArith List Bool Arith Lia.
 From IRV Require Import Base.Exn C01.Model C01.Store C01.ProofsA.
 Import ListNotations.
